@@ -152,4 +152,38 @@ CLAIMED = {
              "task-set scheduling entry point runs its functor inline once or hands it to the pool once on every path, never both.",
         note="completion (C02) and delivery by the pool (C01) are separate clauses",
     ),
+    "C12": dict(
+        technique="flag-conditioned must-pass-through (wait => task-set wait) over clang CFGs + compile-time width witnesses read from the AST",
+        text="Decides two clauses only: on every path with wait = true parallel_for and each dispatcher wait on the task set before returning (global "
+             "overloads force wait); and the adaptive claim cursor, advanced unconditionally on failing claims, is strictly wider than the index type "
+             "for all 8 index types or guarded (64-bit types are a recorded known finding). Exact partition of the range is NOT decided.",
+        note="index-coverage arithmetic for all inputs needs a solver/proof (other family)",
+    ),
+    "C13": dict(
+        technique="targeted congruence evaluation (multiple-of-g / start-relative / definitely-not / unknown) of boundary and stride expressions over the AST/CFG",
+        text="Trimmed end = end - size%g; the adaptive chunk size is a multiple of g for every g (bit-mask round-ups are classified definitely-not); "
+             "static ceil/small chunk sizes and mapper starts/ends are start-relative multiples; interior stripe boundaries are start + multiple "
+             "(absolute alignDown is not). Unknown constructs are inconclusive (exit 2), never violations.",
+        note="sizes as numbers and exact coverage are not decided",
+    ),
+    "C14": dict(
+        technique="index-correspondence (same resolved variable selects state and chunk) + guard-dominance of caller-side tail invocations over clang CFGs",
+        text="Every body invocation takes its state by the same index that selects its chunk (static) or by generator index < count with the caller at "
+             "index == count (dynamic/adaptive); caller-side uses of states.begin() happen before any scheduling or after the waiting dispatch "
+             "(options.wait) / in the last worker's exit action; initStates precedes every use with count >= 1.",
+        note="interleavings are not explored; distinct indices are assumed to address distinct elements of the user's container",
+    ),
+    "C15": dict(
+        technique="interval lower-bound evaluation through reaching definitions and guards + flag-conditioned must-pass-through over clang CFGs",
+        text="The chunk count handed to staticChunkSize in for_each_n has lower bound 1 on every path (so no division by zero on zero-thread pools); both "
+             "for_each_n_schedule overloads and the serial path wait on the task set on every wait = true path; global overloads force wait; the "
+             "scheduled count matches the caller's share.",
+        note="per-element count for all n is chunk arithmetic (C17, not applicable)",
+    ),
+    "C48": dict(
+        technique="symbolic upper-bound discipline (cap only lowered: min(cap,..) / guarded) + structural launch-count and serial-gate rules over clang CFGs",
+        text="The thread cap is initialised below maxThreads and every later assignment only lowers it; launched tasks = cap minus the participating "
+             "caller; parallel dispatch requires maxThreads >= 2; the caller adds no body invocation on top of maxThreads running ones.",
+        note="run-time peak concurrency and work stolen by waiting callers are not decided",
+    ),
 }
